@@ -151,7 +151,7 @@ def main():
                   "memory": "operands and results are exact-size objects (any access outside is a MEM finding); results pre-filled with symbolic junk that must be overwritten"}
     res.outside = ["dimensions above the bound", "rounding of the products (the claim is the exact-real product; summation order is immaterial there)"]
     res.assumptions = ["floats treated as reals by design for the product clause; the structure kernels involve no arithmetic so their verdict is also valid bit-for-bit"]
-    e2.run_e2(res, cfg, ["linalg.c"], inst, builder, group="linalg", validate_every=23, exec_attrs={"force_solver": True}, tol=1e-9, time_budget=300 if T == "quick" else 1500)
+    e2.run_e2(res, cfg, ["linalg.c"], inst, builder, group="linalg", validate_every=23, exec_attrs={"force_solver": True}, exec_opts={"solver": "nra"}, tol=1e-9, time_budget=300 if T == "quick" else 1500)
     e2.finish_coverage(res, must_cover=["a_real_" + f for f in ["T1", "T2", "eye2", "tri2", "diag", "triL2", "triU2", "mulmm", "mulTm", "mulmT", "mulTT"]], report_funcs=None)
     return res.finish()
 
